@@ -122,9 +122,91 @@ def simulate(g, rng):
     return None
 
 
+def cut_assign_function(dst):
+    """The text of assign_enc_dec_segments as it stands in /repo, written to dst (included by harness/unit/segproto_harness.c)."""
+    src = open(os.path.join(REPO, 'Source/Lib/Encoder/Codec/EbEncDecProcess.c'), errors='replace').read()
+    i = src.index('EbBool assign_enc_dec_segments(')
+    j = src.index('\n}\n', i) + 3
+    write_if_changed(dst, src[i:j])
+    return src[i:j]
+
+
+class Lock2:
+    """the real function and the extracted protocol model, driven with the same lines"""
+    def __init__(self, hbin, mbin):
+        import subprocess
+        self.a = subprocess.Popen([hbin], stdin=subprocess.PIPE, stdout=subprocess.PIPE, stderr=subprocess.DEVNULL, text=True, bufsize=1)
+        self.b = subprocess.Popen([mbin], stdin=subprocess.PIPE, stdout=subprocess.PIPE, stderr=subprocess.DEVNULL, text=True, bufsize=1)
+
+    def real(self, line):
+        self.a.stdin.write(line + '\n'); self.a.stdin.flush(); return self.a.stdout.readline().strip()
+
+    def model(self, line):
+        self.b.stdin.write(line + '\n'); self.b.stdin.flush(); return self.b.stdout.readline().strip()
+
+    def close(self):
+        for p in (self.a, self.b):
+            try:
+                p.stdin.close(); p.kill(); p.wait()
+            except Exception:
+                pass
+
+
+def parse_res(l, inrange):
+    m = re.match(r'R (\d) (-?\d+) F (-?\d+) D(.*) U(.*)$', l)
+    if not m:
+        return None
+    dep = [int(x) for x in m.group(4).split()]
+    return (int(m.group(1)), int(m.group(2)), int(m.group(3)), tuple(d for i, d in enumerate(dep) if i in inrange), tuple(int(x) for x in m.group(5).split()))
+
+
+def protocol_run(lk, grid, rng, workers, with_model=True):
+    """One picture: seeded scheduler over `workers` workers. Returns (violation or None, model/real difference or None, script)."""
+    script = ['G %d %d %d %d %d %d' % grid]
+    g = lk.real(script[0])
+    if not g.startswith('G '):
+        return None, None, script          # constructor refused the grid
+    v = [int(x) for x in g.split()[1:]]
+    ttl, R, B = v[0], v[1], v[2]; lo = v[3:3 + R]; hi = v[3 + R:3 + 2 * R]
+    if with_model:
+        lk.model(g)
+    inrange = set(s_ for r in range(R) for s_ in range(lo[r], hi[r] + 1))
+    running = []; pend = []; started = []; done = set()
+    def both(line):
+        script.append(line)
+        a = lk.real(line); b = lk.model(line) if with_model else a
+        pa = parse_res(a, inrange); pb = parse_res(b, inrange)
+        return pa, (None if pa == pb and pa is not None else dict(step=len(script) - 1, cmd=line, real=a[:300], model=b[:300]))
+    r, d = both('M')
+    if d:
+        return None, d, script
+    running.append(r[1]); started.append(r[1])
+    for _ in range(4 * ttl + 20):
+        choices = [('C', s_) for s_ in running] + ([('E', x) for x in pend] if len(running) < workers else [])
+        if not choices:
+            break
+        k, x = rng.choice(choices)
+        r, d = both('%s %d' % (k, x))
+        if d:
+            return None, d, script
+        if k == 'C':
+            running.remove(x); done.add(x)
+        else:
+            pend.remove(x)
+        if r[0]:
+            if r[1] in started:
+                return dict(kind='segment_started_twice', what='segment %d is handed out a second time' % r[1]), None, script
+            running.append(r[1]); started.append(r[1])
+        if r[2] >= 0:
+            pend.append(r[2])
+    if running or pend or set(started) != inrange:
+        return dict(kind='picture_incomplete', what='no call can make progress but segments %s were never started (running %s, pending rows %s)' % (sorted(inrange - set(started))[:8], running, pend)), None, script
+    return None, None, script
+
+
 def run(ck):
     ck.trust('Coq 8.16.1 kernel (coqc); no native_compute', 'extraction (ExtrOcamlBasic only; nat stays unary) + obs/c24.ml',
-             'harness/unit/seg_harness.c calls the real enc_dec_segments_ctor/init; the superblock walk and the assignment protocol are transcribed in SegGrid.v / SegProto.v from EbEncDecProcess.c (walk compared on the C arrays)', 'gcc')
+             'harness/unit/seg_harness.c calls the real enc_dec_segments_ctor/init; the superblock walk is transcribed in SegGrid.v from EbEncDecProcess.c (compared on the C arrays); the assignment protocol of SegProto.v runs call by call against the current text of assign_enc_dec_segments (harness/unit/segproto_harness.c, obs/c24p.ml; ExtrOcamlNatInt)', 'gcc')
     ck.prove('Properties_C24', extra_modules=['Proofs_C24', 'SegGrid', 'SegProto'])
     hd = os.path.join(CACHE, 'h', 'c24'); os.makedirs(hd, exist_ok=True)
     hbin = os.path.join(hd, 'seg_h')
@@ -135,6 +217,47 @@ def run(ck):
     if not (ok and okb):
         ck.violation('tie_broken', 'C24 harness or checker does not build: ' + (log + blog)[-300:], dict(log=(log + blog)[-2000:]), False)
         return
+    # ---- the assignment protocol itself: real assign_enc_dec_segments against the extracted SegProto step functions, call by call
+    pbin = os.path.join(hd, 'segproto_h'); okp = False; okq = False; qbin = None
+    try:
+        cut_assign_function(os.path.join(hd, 'seg_assign.inc'))
+        okp, plog = build.cc(pbin, [os.path.join(VERIF, 'harness/unit/segproto_harness.c')] + [os.path.join(REPO, s) for s in SRC], flags='-DNDEBUG -w -I%s -I%s/Source/Lib/Encoder/Globals' % (hd, REPO))
+    except Exception as e:
+        plog = repr(e)
+    ck.obligation('build protocol harness around the current text of assign_enc_dec_segments', okp, plog[-400:])
+    okq, qbin, qlog = obs.build_obs('C24P')
+    ck.obligation('extract + build protocol model driver (SegProto.init / right_step / down_step / start)', okq, qlog[-300:])
+    if okp and okq:
+        lk = Lock2(pbin, qbin)
+        prng = random.Random(ck.seed * 104729 + 5)
+        grids = [(W, H, c, r, max(c, 1), max(r, 1)) for W in (1, 2, 3, 5, 8, 13, 20, 33, 60) for H in (1, 2, 3, 5, 9, 17, 34) for (c, r) in ((1, 1), (2, 2), (3, 2), (6, 4), (8, 6), (10, 6))]
+        if ck.tier == 'thorough':
+            grids += [(prng.randrange(1, 66), prng.randrange(1, 35), prng.randrange(1, 11), prng.randrange(1, 7), 10, 6) for _ in range(3000)]
+        npr = 0; pdiff = None; pviol = None; nsteps = 0
+        for g in grids:
+            for workers in (1, 2, prng.choice([3, 4, 8, 16])):
+                v, d, script = protocol_run(lk, g, prng, workers)
+                npr += 1; nsteps += len(script)
+                if d and pdiff is None:
+                    pdiff = dict(grid=g, workers=workers, script=script, difference=d)
+                if d and pviol is None:
+                    # the model no longer follows the code: look for a failing schedule on the real function alone
+                    lk.close(); lk = Lock2(pbin, qbin)
+                    for k_ in range(6):
+                        v2, _, script2 = protocol_run(lk, g, random.Random(ck.seed * 31 + k_), workers, with_model=False)
+                        if v2:
+                            pviol = dict(grid=g, workers=workers, script=script2, violation=v2); break
+                if v and pviol is None:
+                    pviol = dict(grid=g, workers=workers, script=script, violation=v)
+                if d or v:
+                    lk.close(); lk = Lock2(pbin, qbin)
+        lk.close()
+        ck.evals += npr
+        ck.cov['protocol_runs'] = npr; ck.cov['protocol_calls'] = nsteps
+        if pviol:
+            ck.violation('protocol_' + pviol['violation']['kind'], 'the real assign_enc_dec_segments violates C24 on grid W=%d H=%d cols=%d rows=%d with %d workers: %s' % (pviol['grid'][0], pviol['grid'][1], pviol['grid'][2], pviol['grid'][3], pviol['workers'], pviol['violation']['what']), pviol, True)
+        ck.obligation('correspondence(protocol model = real assign_enc_dec_segments: result, feedback row, dependency map, row cursors after every call; %d pictures, %d calls)' % (npr, nsteps), pdiff is None,
+                      '' if pdiff is None else 'first difference: grid %s, %d workers, step %d %s: real "%s" model "%s"' % (pdiff['grid'], pdiff['workers'], pdiff['difference']['step'], pdiff['difference']['cmd'], pdiff['difference']['real'][:120], pdiff['difference']['model'][:120]))
     dom = domain(ck.tier, ck.rng)
     nsh = NCPU
     shards = [dom[i::nsh] for i in range(nsh)]
